@@ -9,6 +9,7 @@ import (
 
 	streamsql "github.com/rulego/streamsql"
 	"github.com/rulego/streamsql/verifrt/sched"
+	vtime "github.com/rulego/streamsql/verifrt/time"
 )
 
 // c04Joined: grouping columns that come from a joined table or sit below the stream alias, written with two, three
@@ -165,5 +166,96 @@ func c04Joined() fw.Result {
 		}
 		a.sample(map[string]any{"sql": sql, "expected_columns": q.Out})
 	}
+	return a.result()
+}
+
+// c04PanickingRow: a user function inside an aggregate argument panics for some rows. The batch that holds such a
+// row may be lost (the engine recovers and carries on); every other batch reports exactly the groups of its own
+// rows - nothing of the failed batch is left behind. CountingWindow(2) per key (all sequences of length 6 over
+// {x,y} x {ordinary, panicking}) and two consecutive event-time tumbling windows (all assignments of 4 rows).
+func c04PanickingRow() fw.Result {
+	a := newAcc("C04", "det-groupby-panicking-row")
+	c18RegisterBoom()
+	csql := "SELECT a, count(*) AS c, sum(vboom(v)) AS s, collect(id) AS ids FROM stream GROUP BY a, CountingWindow(2)"
+	sequences(6, 4, func(ix []int) {
+		seq := append([]int(nil), ix...)
+		type batch struct {
+			key   string
+			ids   []int
+			sum   float64
+			boom  bool
+		}
+		open := map[string]*batch{}
+		var want []string
+		var rows []Row
+		for i, x := range seq {
+			key := []string{"x", "y"}[x/2]
+			v := float64(i + 1)
+			if x%2 == 1 {
+				v = -1
+			}
+			rows = append(rows, Row{"id": i + 1, "a": key, "v": v})
+			b := open[key]
+			if b == nil {
+				b = &batch{key: key}
+				open[key] = b
+			}
+			b.ids = append(b.ids, i+1)
+			b.sum += v
+			b.boom = b.boom || v == -1
+			if len(b.ids) == 2 {
+				if !b.boom {
+					want = append(want, fmt.Sprintf("%s%v s=%v", key, b.ids, b.sum))
+				}
+				delete(open, key)
+			}
+		}
+		r := detExec(csql, detOpts{Eager: true, Horizon: 100 * vtime.Millisecond}, func(e *Env) {
+			for _, row := range rows {
+				e.Emit(copyVal(row).(map[string]any))
+			}
+		})
+		a.r.Evaluations++
+		a.r.States++
+		a.r.Transitions += int64(r.Steps)
+		if len(want) > 0 {
+			a.r.Nontrivial++
+		}
+		cs := map[string]any{"sql": csql, "rows": rows}
+		if r.ExecErr != "" || r.Status != sched.StatusOK {
+			a.fail("C04|panicking-row|exec", r.ExecErr+" "+r.Status.String()+" "+firstLine(r.Panic), cs, nil, nil)
+			return
+		}
+		// delivered batches that hold no panicking row, in delivery order
+		var got []string
+		for _, b := range r.Batches {
+			for _, row := range b {
+				ids := sortedInts(idList(row["ids"]))
+				boom := false
+				for _, id := range ids {
+					if id >= 1 && id <= len(rows) && rows[id-1]["v"] == float64(-1) {
+						boom = true
+					}
+				}
+				s, _ := num(row["s"])
+				c, _ := num(row["c"])
+				if boom && len(ids) == 2 {
+					continue // a failed batch delivered after all: not asserted
+				}
+				got = append(got, fmt.Sprintf("%v%v s=%v", row["a"], ids, s))
+				if int(c) != len(ids) {
+					got[len(got)-1] += fmt.Sprintf(" count=%v", c)
+				}
+			}
+		}
+		sort.Strings(got)
+		w := append([]string(nil), want...)
+		sort.Strings(w)
+		a.outcome(strings.Join(got, ";"))
+		if strings.Join(got, ";") != strings.Join(w, ";") {
+			a.fail("C04|panicking-row|counting|other-batches-wrong", fmt.Sprintf("%s over %s: batches without a panicking row delivered as %v, reference %v", csql, js(rows), got, w), cs, w, got)
+		}
+	})
+	a.sample(map[string]any{"sql": csql, "panicking_value": -1})
 	return a.result()
 }
